@@ -1,6 +1,6 @@
 (* C16 — flat-integer interface of the arbitration model (stream arbitration).
    input :  16 (stream tag)  maxGlobal maxNode maxNs mmKind mmVal muKind muVal skipExpected
-            P (ns node wl prio ptime ready forbid)*P   W (replicas isJobKind)*W   J (pod time)*J
+            P (ns node wl prio ptime ready forbid state)*P   W (replicas isJobKind)*W   J (pod time)*J
             K (op a b)*K
    observable : per operation  (phase|-1 annotation waiting arbitrated)*J  verdict *)
 From Coq Require Import List ZArith Bool.
@@ -17,9 +17,10 @@ Fixpoint number_from {A} (n : Z) (f : Z -> list Z -> A * list Z) (k : nat) (l : 
 
 Definition dec_pod (id : Z) (l : list Z) : pod * list Z :=
   match l with
-  | ns :: node :: w :: prio :: tm :: ready :: forbid :: t =>
-      (mkPod id ns node w prio tm (zb ready) (zb forbid) true, t)
-  | _ => (mkPod id 0 0 0 0 0 true false true, [])
+  | ns :: node :: w :: prio :: tm :: ready :: forbid :: state :: t =>
+      (mkPod id ns node w prio tm (zb ready) (zb forbid) true (state =? 1)
+             ((state =? 2) || (state =? 3)), t)
+  | _ => (mkPod id 0 0 0 0 0 true false true false false, [])
   end.
 Definition dec_wl (id : Z) (l : list Z) : wl * list Z :=
   match l with
@@ -37,7 +38,7 @@ Definition dec_op (l : list Z) : op * list Z :=
       ((if k =? 1 then OAdd a else if k =? 2 then ORound a else if k =? 3 then OSetPhase a b
         else if k =? 4 then ODelete a else if k =? 5 then OSetReady a (zb b)
         else if k =? 6 then ODeletePod a else if k =? 7 then OFilter a
-        else if k =? 8 then OEvict a else ONop), t)
+        else if k =? 8 then OEvict a else if k =? 9 then OSetPodState a b else ONop), t)
   | _ => (ONop, [])
   end.
 
